@@ -9,6 +9,7 @@ import (
 	"os"
 	"path/filepath"
 	"sort"
+	"strconv"
 	"strings"
 	"time"
 )
@@ -92,6 +93,9 @@ func NewRun(property, tier string, seed int64, level string) *Run {
 		clauses: map[string]*Clause{}, distinct: map[string]struct{}{}, states: map[string]struct{}{},
 		Extra: map[string]interface{}{}, Counters: map[string]int{}, knownHit: map[string]int{}, MaxSamples: 6, MaxViol: 5}
 	r.known = LoadKnown(property)
+	if v, err := strconv.Atoi(os.Getenv("VERIF_MAXVIOL")); err == nil && v > 0 {
+		r.MaxViol = v // exploration aid: keep going after the first few violations
+	}
 	return r
 }
 
@@ -131,7 +135,7 @@ func (r *Run) Fail(clause, sig string, trace interface{}, format string, args ..
 		r.knownHit[sig]++
 		return
 	}
-	if len(r.Violations) < 50 {
+	if len(r.Violations) < 5000 {
 		r.Violations = append(r.Violations, Violation{Clause: clause, Signature: sig, Detail: fmt.Sprintf(format, args...), Trace: trace})
 	}
 }
